@@ -89,6 +89,31 @@ type poolCfg struct {
 	requests                                    bool
 }
 
+// The library's hook variables are set once; what they do is switched atomically, because
+// goroutines of an earlier service (timers of expired query events) may still call them.
+var hookNote, hookGate atomic.Value
+
+type noteFn func(point, wid string, n int)
+type gateFn func(point string)
+
+func init() {
+	res.VerifNoteFn = func(point, wid string, n int) {
+		if f, _ := hookNote.Load().(noteFn); f != nil {
+			f(point, wid, n)
+		}
+	}
+	res.VerifGateFn = func(point string) {
+		if f, _ := hookGate.Load().(gateFn); f != nil {
+			f(point)
+		}
+	}
+}
+
+func setHooks(n noteFn, g gateFn) {
+	hookNote.Store(n)
+	hookGate.Store(g)
+}
+
 // poolHung is set once a Shutdown or Serve call did not return: further workloads would only
 // pile up leaked goroutines, so generation stops there.
 var poolHung int32
@@ -98,12 +123,11 @@ func runPoolWorkload(r *gen.R, c poolCfg, emit func(string)) {
 		return
 	}
 	rec := &recorder{byRep: map[string]int{}, grp: map[int]string{}}
-	res.VerifNoteFn = rec.add
+	setHooks(rec.add, nil)
 	var gateSeed uint64 = r.U64()
-	res.VerifGateFn = nil
 	if c.perturb > 0 {
 		var ctr uint64
-		res.VerifGateFn = func(point string) {
+		setHooks(rec.add, func(point string) {
 			x := atomic.AddUint64(&ctr, 0x9E3779B97F4A7C15) ^ gateSeed
 			x ^= x >> 31
 			if int(x%uint64(c.perturb)) == 0 {
@@ -113,9 +137,9 @@ func runPoolWorkload(r *gen.R, c poolCfg, emit func(string)) {
 					time.Sleep(time.Duration(x%50) * time.Microsecond)
 				}
 			}
-		}
+		})
 	}
-	defer func() { res.VerifNoteFn = nil; res.VerifGateFn = nil }()
+	defer setHooks(nil, nil)
 
 	s := res.NewService("pool")
 	s.SetLogger(svc.NopLogger{})
